@@ -999,10 +999,10 @@ var identTestSites = map[string]string{
 
 // identTestAborts: IDENT-only tests covered by an abort arm of ModifyRegister for the parent node type.
 var identTestAborts = map[string]string{
-	"eval.(*State).evalPrefixIncrDecr":   "PrefixExpression",
+	"eval.(*State).evalPrefixIncrDecr":    "PrefixExpression",
 	"eval.(*State).evalPostfixExpression": "PostfixExpression",
-	"eval.(*State).evalDelete":           "Builtin",
-	"eval.(*State).evalForSpecialForms":  "ForExpression",
+	"eval.(*State).evalDelete":            "Builtin",
+	"eval.(*State).evalForSpecialForms":   "ForExpression",
 }
 
 func (c *Ctx) checkIdentTests(r *Report) {
